@@ -344,10 +344,25 @@ def judge_guard(R, c, nodes, pred, key, where, msg, absent_is_violation=True, ne
   elif 'bypass' in g:
     n = nodes[g.index('bypass')]
     R.fail(key, where, '%s: `%s` is reached without the test on the path %s' % (msg, astu.short(n.stmt), guard_witness(c, n, pred, negative)))
-  elif absent_is_violation and not (moved and moved()):
+  elif absent_is_violation and not (moved and moved()) and not _pred_in_helpers(c, pred, where):
     R.fail(key, where, '%s: the test is gone from the function' % msg)
   else:
     R.unsure(key, where, '%s: the test is not in this function' % msg)
+
+
+def _pred_in_helpers(c, pred, where):
+  """The predicate is evaluated by a same-module function this function calls (a guard moved into a helper)."""
+  f = where[0] if isinstance(where, tuple) else where
+  if not isinstance(f, Func):
+    return False
+  repo = f.mod.repo
+  for x in ast.walk(c.func):
+    if isinstance(x, ast.Call):
+      r = repo.resolve_call(f.mod, x, f)
+      if isinstance(r, Func) and r.mod.rel == f.mod.rel and r.node is not c.func:
+        if any(pred(e) for e in ast.walk(r.node) if isinstance(e, ast.expr)):
+          return True
+  return False
 
 
 class Unsupported(Exception):
